@@ -351,6 +351,18 @@ var c20combos = []comboSpec{
 	{"irpf-7", func() *tax.Combo { return &tax.Combo{Category: "IRPF", Percent: pct("7%")} }},
 	{"igic-standard", func() *tax.Combo { return &tax.Combo{Category: "IGIC", Rate: "standard"} }},
 	{"ipsi-3", func() *tax.Combo { return &tax.Combo{Category: "IPSI", Percent: pct("3.5%")} }},
+	// different rates written with different numbers of decimals that agree at the
+	// coarser precision (21% / 21.4%, 7% / 7.49% with 7.5% above), also as surcharges
+	{"vat-21.4", func() *tax.Combo { return &tax.Combo{Category: "VAT", Percent: pct("21.4%")} }},
+	{"vat-20.96", func() *tax.Combo { return &tax.Combo{Category: "VAT", Percent: pct("20.96%")} }},
+	{"vat-7", func() *tax.Combo { return &tax.Combo{Category: "VAT", Percent: pct("7%")} }},
+	{"vat-7.49", func() *tax.Combo { return &tax.Combo{Category: "VAT", Percent: pct("7.49%")} }},
+	{"vat-21-sur-5", func() *tax.Combo {
+		return &tax.Combo{Category: "VAT", Percent: pct("21.0%"), Surcharge: pct("5%")}
+	}},
+	{"vat-21-sur-5.24", func() *tax.Combo {
+		return &tax.Combo{Category: "VAT", Percent: pct("21.0%"), Surcharge: pct("5.24%")}
+	}},
 }
 
 func randAmount(rng *rand.Rand, maxExp int) num.Amount {
@@ -469,7 +481,7 @@ func shareCategory(a, b *cSum) bool {
 }
 
 func runC20(c *Ctx) {
-	c.R.Rule("summaries produced by the real tax.TotalCalculator from random rows over 22 combo kinds (ES categories VAT/IRPF/IGIC/IPSI, keyed/percent/exempt, surcharges, extension maps that are equal, different, disjoint and strict subsets of one another, country overrides), both rounding rules; relations: merge vs component-wise oracle, commutativity, associativity, A+(-A)=0, -(-A)=A, operand immutability (JSON + deep fingerprint incl. unexported fields), recalculation fixpoint; payments with 1-8 debit/credit lines in 1-3 currencies. non-trivial = operands share a category or carry a surcharge/retained/exempt feature; distinct by operand JSON")
+	c.R.Rule("summaries produced by the real tax.TotalCalculator from random rows over 28 combo kinds (ES categories VAT/IRPF/IGIC/IPSI, keyed/percent/exempt, surcharges, extension maps that are equal, different, disjoint and strict subsets of one another, country overrides), both rounding rules; relations: merge vs component-wise oracle, commutativity, associativity, A+(-A)=0, -(-A)=A, operand immutability (JSON + deep fingerprint incl. unexported fields), recalculation fixpoint; payments with 1-8 debit/credit lines in 1-3 currencies. non-trivial = operands share a category or carry a surcharge/retained/exempt feature; distinct by operand JSON")
 	c.R.Assume("component-wise arithmetic in math/big (internal/dec); groups keyed by (category; country, percent, surcharge percent, extensions; exempt apart); row order ignored")
 	c.R.Assume("payments: debit/credit amounts generated at the precision of their own currency are in domain; amounts with more decimals are executed and reported separately (out_of_domain), as are conversions from a currency with fewer decimals than the payment currency if they disagree")
 
